@@ -33,6 +33,30 @@
 //! Back-ends: native-tls (OpenSSL) and rustls+ring, in all four client/server
 //! combinations; TLS 1.3 and TLS 1.2 (the last flight of the handshake is sent
 //! by a different role).
+//!
+//! Transports (`Case::transport`):
+//!
+//! * `direct` — `End` implements `futures_io::{AsyncRead, AsyncWrite}` itself
+//!   (*readiness model*: a `Pending` call did nothing and must be retried);
+//!   with `buffering` a retry of `poll_flush` is what delivers staged bytes.
+//! * `compat` — `CompEnd` implements compio-io's completion-style
+//!   `AsyncRead`/`AsyncWrite` (+ `Splittable`) and is wrapped in the real
+//!   `compio_io::compat::AsyncStream` (the adapter compio offers for
+//!   futures-based layers; `SyncStream` is then the buffering transport).
+//!   *Completion model*: a submitted write belongs to the "kernel" and is
+//!   delivered when its latency (the same `Pending` pattern) is over, whether
+//!   or not the future is polled again — as with a proactor. A pass-through
+//!   `Probe` between the TLS layer and `AsyncStream` records what the TLS
+//!   layer was told, so that a deadlock can be attributed: bytes accepted by
+//!   `AsyncStream` but never submitted + last `poll_flush` said `Pending` and
+//!   was not retried (TLS layer's fault) vs. said `Ok` (AsyncStream's fault).
+//!
+//! Signatures. `eval`: (layer+version, back-end, role carrying the hostile
+//! script, read limit, write limit, pending pattern, transport). Violations:
+//! `C15/tls/<rule>/<diagnosed cause or script class>/<back-end>-<role the
+//! failure is attributed to>/<handshake|data|close>[/via-asyncstream]`.
+//!
+//! `C15T_TRACE=1` prints every transport call of a replay to stderr.
 
 use std::{
     cell::RefCell,
@@ -187,6 +211,15 @@ pub struct Case {
     sched: u8,
     sched_seed: u64,
     pattern_seed: u64,
+    /// "direct": the scripted duplex implements the futures-io traits itself
+    /// (readiness model). "compat": the duplex implements compio-io's
+    /// completion-style traits and is wrapped in the real
+    /// `compio_io::compat::AsyncStream` (its `SyncStream` buffers are then
+    /// the buffering transport; `buffering` of the script is ignored).
+    transport: String,
+    /// `AsyncStream::with_limits(compat_cap, compat_max, ..)`; 0 = defaults.
+    compat_cap: usize,
+    compat_max: usize,
 }
 
 impl Case {
@@ -204,6 +237,9 @@ impl Case {
             "sched": self.sched,
             "sched_seed": self.sched_seed,
             "pattern_seed": self.pattern_seed,
+            "transport": self.transport,
+            "compat_cap": self.compat_cap,
+            "compat_max": self.compat_max,
         })
     }
 
@@ -235,6 +271,9 @@ impl Case {
             sched: v["sched"].as_u64().unwrap_or(0) as u8,
             sched_seed: v["sched_seed"].as_u64().unwrap_or(0),
             pattern_seed: v["pattern_seed"].as_u64().unwrap_or(0),
+            transport: v["transport"].as_str().unwrap_or("direct").to_string(),
+            compat_cap: v["compat_cap"].as_u64().unwrap_or(0) as usize,
+            compat_max: v["compat_max"].as_u64().unwrap_or(0) as usize,
         }
     }
 
@@ -257,7 +296,13 @@ impl Case {
                 (true, true) => "rwlimit",
             },
             if self.script.iter().any(|s| s.has_pending()) { "pending" } else { "nopending" },
-            if self.script.iter().any(|s| s.buffering) { "buffering" } else { "direct" }
+            if self.transport == "compat" {
+                "asyncstream"
+            } else if self.script.iter().any(|s| s.buffering) {
+                "buffering"
+            } else {
+                "direct"
+            }
         )
     }
 
@@ -318,6 +363,15 @@ struct EndStats {
     flush_pending_outstanding: bool,
     /// Number of flush/close calls after the last staged write.
     flush_calls_since_write: u64,
+    /// compat transport: bytes the TLS layer handed to `AsyncStream`
+    /// (`poll_write` returned `Ok(n)`), and bytes `AsyncStream` submitted to
+    /// the completion-model end. The difference sits in `SyncStream`.
+    probe_accepted: u64,
+    comp_submitted: u64,
+    /// compat transport: result of the last `poll_flush`/`poll_close` the TLS
+    /// layer made on `AsyncStream` after its last write: 0 none, 1 Pending,
+    /// 2 Ready(Ok), 3 Ready(Err).
+    probe_last_flush: u8,
 }
 
 struct EndState {
@@ -334,6 +388,41 @@ struct Deferred {
     fire_at: u64,
     end: usize,
     kind: usize,
+    /// `None`: readiness model, the call kind becomes ready again.
+    /// `Some`: completion model, an operation that was submitted finishes now
+    /// (a write is delivered to the peer at this moment, whether or not
+    /// anybody polls the operation's future: the "kernel" owns it).
+    op: Option<Completion>,
+}
+
+struct Completion {
+    state: Rc<OpState>,
+    /// Bytes a write operation delivers on completion.
+    data: Option<Vec<u8>>,
+    /// A shutdown operation closes the pipe on completion.
+    close: bool,
+}
+
+#[derive(Default)]
+struct OpState {
+    done: std::cell::Cell<bool>,
+    waker: RefCell<Option<Waker>>,
+}
+
+/// Future of a submitted completion-model operation.
+struct OpFuture(Rc<OpState>);
+
+impl Future for OpFuture {
+    type Output = ();
+
+    fn poll(self: Pin<&mut Self>, cx: &mut Context<'_>) -> Poll<()> {
+        if self.0.done.get() {
+            Poll::Ready(())
+        } else {
+            *self.0.waker.borrow_mut() = Some(cx.waker().clone());
+            Poll::Pending
+        }
+    }
 }
 
 struct Net {
@@ -346,6 +435,15 @@ struct Net {
     progress: u64,
     /// Transport calls without progress inside the current poll.
     idle_calls_in_poll: u64,
+}
+
+fn trace_on() -> bool {
+    thread_local!(static ON: bool = std::env::var_os("C15T_TRACE").is_some());
+    ON.with(|o| *o)
+}
+
+macro_rules! trace {
+    ($($a:tt)*) => { if trace_on() { eprintln!($($a)*); } };
 }
 
 const INPOLL_MARK: &str = "C15T-INPOLL-SPIN";
@@ -412,6 +510,7 @@ impl Net {
                 fire_at: step + delay,
                 end: me,
                 kind,
+                op: None,
             });
             // an injected Pending is transport behaviour, i.e. "work" the
             // layer legitimately has to wait for
@@ -420,6 +519,42 @@ impl Net {
             return true;
         }
         false
+    }
+
+    /// Completion model: how many steps the operation submitted now stays in
+    /// flight (0 = completes at once), from the same cyclic pattern.
+    fn latency(&mut self, me: usize, kind: usize) -> Option<u64> {
+        let e = &mut self.ends[me];
+        e.stats.calls[kind] += 1;
+        let pat = &e.script.pend[kind];
+        if pat.is_empty() {
+            return None;
+        }
+        let p = pat[e.idx[kind] % pat.len()];
+        e.idx[kind] += 1;
+        if p {
+            e.stats.injected[kind] += 1;
+            Some(e.script.delay)
+        } else {
+            None
+        }
+    }
+
+    fn submit(&mut self, me: usize, kind: usize, delay: u64, data: Option<Vec<u8>>, close: bool) -> Rc<OpState> {
+        let state = Rc::new(OpState::default());
+        self.deferred.push(Deferred {
+            fire_at: self.step + delay,
+            end: me,
+            kind,
+            op: Some(Completion {
+                state: state.clone(),
+                data,
+                close,
+            }),
+        });
+        self.progress += 1;
+        self.idle_calls_in_poll = 0;
+        state
     }
 
     /// Fire the deferred wakes that are due (all of them if `force`).
@@ -434,10 +569,32 @@ impl Net {
                 || (force_one && !fired && Some(self.deferred[i].fire_at) == earliest);
             if due {
                 let d = self.deferred.remove(i);
-                let e = &mut self.ends[d.end];
-                e.blocked[d.kind] = false;
-                if let Some(w) = e.blocked_waker[d.kind].take() {
-                    w.wake();
+                match d.op {
+                    None => {
+                        let e = &mut self.ends[d.end];
+                        e.blocked[d.kind] = false;
+                        if let Some(w) = e.blocked_waker[d.kind].take() {
+                            w.wake();
+                        }
+                    }
+                    Some(c) => {
+                        trace!("  fire completion end={} kind={} data={:?} close={}", d.end, KIND_NAMES[d.kind], c.data.as_ref().map(|x| x.len()), c.close);
+                        if let Some(data) = &c.data {
+                            self.pipes[d.end].deliver(data);
+                        }
+                        if c.close {
+                            let tx = &mut self.pipes[d.end];
+                            tx.closed = true;
+                            if let Some(w) = tx.reader.take() {
+                                w.wake();
+                            }
+                        }
+                        self.useful(d.end);
+                        c.state.done.set(true);
+                        if let Some(w) = c.state.waker.borrow_mut().take() {
+                            w.wake();
+                        }
+                    }
                 }
                 fired = true;
             } else {
@@ -590,6 +747,249 @@ impl AsyncWrite for End {
             net.idle_call();
         }
         Poll::Ready(Ok(()))
+    }
+}
+
+// ---------------------------------------------------------------------------
+// Completion-model end: compio-io `AsyncRead`/`AsyncWrite` (what compio's own
+// streams implement), to be wrapped in the real `compio_io::compat::AsyncStream`
+// ---------------------------------------------------------------------------
+
+pub struct CompEnd {
+    net: Rc<RefCell<Net>>,
+    me: usize,
+}
+
+pub struct CompRead {
+    net: Rc<RefCell<Net>>,
+    me: usize,
+}
+
+pub struct CompWrite {
+    net: Rc<RefCell<Net>>,
+    me: usize,
+}
+
+impl compio_io::util::Splittable for CompEnd {
+    type ReadHalf = CompRead;
+    type WriteHalf = CompWrite;
+
+    fn split(self) -> (CompRead, CompWrite) {
+        (
+            CompRead {
+                net: self.net.clone(),
+                me: self.me,
+            },
+            CompWrite {
+                net: self.net,
+                me: self.me,
+            },
+        )
+    }
+}
+
+/// Wait until the incoming pipe has data or is closed.
+struct Readable<'a>(&'a Rc<RefCell<Net>>, usize);
+
+impl Future for Readable<'_> {
+    type Output = ();
+
+    fn poll(self: Pin<&mut Self>, cx: &mut Context<'_>) -> Poll<()> {
+        let net = &mut *self.0.borrow_mut();
+        let me = self.1;
+        let rx = &mut net.pipes[1 - me];
+        if rx.wire.is_empty() && !rx.closed {
+            rx.reader = Some(cx.waker().clone());
+            net.ends[me].stats.genuine_pending += 1;
+            net.idle_call();
+            Poll::Pending
+        } else {
+            Poll::Ready(())
+        }
+    }
+}
+
+impl compio_io::AsyncRead for CompRead {
+    async fn read<B: compio_buf::IoBufMut>(&mut self, mut buf: B) -> compio_buf::BufResult<usize, B> {
+        use compio_buf::SetLenExt;
+        let me = self.me;
+        if buf.as_uninit().is_empty() {
+            return compio_buf::BufResult(Ok(0), buf);
+        }
+        // the operation is submitted; it may stay in flight for a while
+        let lat = self.net.borrow_mut().latency(me, READ);
+        trace!("  [{}] comp.read submit lat={lat:?}", me);
+        if let Some(delay) = lat {
+            let st = self.net.borrow_mut().submit(me, READ, delay, None, false);
+            OpFuture(st).await;
+        }
+        Readable(&self.net, me).await;
+        let net = &mut *self.net.borrow_mut();
+        let lim = {
+            let e = &mut net.ends[me];
+            let l = if e.script.rl.is_empty() {
+                0
+            } else {
+                let l = e.script.rl[e.rl_i % e.script.rl.len()];
+                e.rl_i += 1;
+                l
+            };
+            if l == 0 { usize::MAX } else { l }
+        };
+        let rx = &mut net.pipes[1 - me];
+        let dst = buf.as_uninit();
+        let avail = rx.wire.len();
+        let n = dst.len().min(avail).min(lim);
+        for d in dst.iter_mut().take(n) {
+            d.write(rx.wire.pop_front().expect("wire has n bytes"));
+        }
+        rx.consumed += n as u64;
+        if n < dst.len().min(avail) {
+            net.ends[me].stats.short_reads += 1;
+        }
+        net.useful(me);
+        trace!("  [{}] comp.read -> {n} (avail {avail}) step={}", me, net.step);
+        unsafe { buf.advance_to(n) };
+        compio_buf::BufResult(Ok(n), buf)
+    }
+}
+
+impl compio_io::AsyncWrite for CompWrite {
+    async fn write<T: compio_buf::IoBuf>(&mut self, buf: T) -> compio_buf::BufResult<usize, T> {
+        let me = self.me;
+        let n = {
+            let net = &mut *self.net.borrow_mut();
+            let src = buf.as_init();
+            if src.is_empty() {
+                net.idle_call();
+                None
+            } else if net.pipes[me].closed {
+                net.idle_call();
+                return compio_buf::BufResult(
+                    Err(io::Error::new(io::ErrorKind::BrokenPipe, "write after shutdown on the scripted duplex")),
+                    buf,
+                );
+            } else {
+                let lat = net.latency(me, WRITE);
+                let e = &mut net.ends[me];
+                let lim = if e.script.wl.is_empty() {
+                    0
+                } else {
+                    let l = e.script.wl[e.wl_i % e.script.wl.len()];
+                    e.wl_i += 1;
+                    l
+                };
+                let n = if lim == 0 { src.len() } else { src.len().min(lim) };
+                if n < src.len() {
+                    e.stats.partial_writes += 1;
+                }
+                e.stats.comp_submitted += n as u64;
+                trace!("  [{}] comp.write submit len={} n={n} lat={lat:?} step={}", me, src.len(), net.step);
+                match lat {
+                    None => {
+                        net.pipes[me].deliver(&src[..n]);
+                        net.useful(me);
+                        Some((n, None))
+                    }
+                    Some(delay) => {
+                        // the "kernel" owns a copy and will deliver it
+                        let st = net.submit(me, WRITE, delay, Some(src[..n].to_vec()), false);
+                        Some((n, Some(st)))
+                    }
+                }
+            }
+        };
+        match n {
+            None => compio_buf::BufResult(Ok(0), buf),
+            Some((n, None)) => compio_buf::BufResult(Ok(n), buf),
+            Some((n, Some(st))) => {
+                OpFuture(st).await;
+                compio_buf::BufResult(Ok(n), buf)
+            }
+        }
+    }
+
+    async fn flush(&mut self) -> io::Result<()> {
+        // like a socket: nothing is buffered below; the call may still take time
+        let me = self.me;
+        let lat = self.net.borrow_mut().latency(me, FLUSH);
+        trace!("  [{}] comp.flush lat={lat:?}", me);
+        if let Some(delay) = lat {
+            let st = self.net.borrow_mut().submit(me, FLUSH, delay, None, false);
+            OpFuture(st).await;
+        } else {
+            self.net.borrow_mut().idle_call();
+        }
+        Ok(())
+    }
+
+    async fn shutdown(&mut self) -> io::Result<()> {
+        let me = self.me;
+        let lat = self.net.borrow_mut().latency(me, CLOSE);
+        let already = self.net.borrow().pipes[me].closed;
+        if already {
+            self.net.borrow_mut().idle_call();
+            return Ok(());
+        }
+        self.net.borrow_mut().ends[me].stats.closes += 1;
+        let st = self.net.borrow_mut().submit(me, CLOSE, lat.unwrap_or(0), None, true);
+        OpFuture(st).await;
+        Ok(())
+    }
+}
+
+/// Pass-through between the TLS layer and `AsyncStream` that only records
+/// what the TLS layer was told (for attributing a deadlock to the right
+/// layer). It never changes a result.
+pub struct Probe<S> {
+    inner: S,
+    net: Rc<RefCell<Net>>,
+    me: usize,
+}
+
+impl<S: AsyncRead + Unpin> AsyncRead for Probe<S> {
+    fn poll_read(mut self: Pin<&mut Self>, cx: &mut Context<'_>, buf: &mut [u8]) -> Poll<io::Result<usize>> {
+        Pin::new(&mut self.inner).poll_read(cx, buf)
+    }
+}
+
+impl<S: AsyncWrite + Unpin> AsyncWrite for Probe<S> {
+    fn poll_write(mut self: Pin<&mut Self>, cx: &mut Context<'_>, buf: &[u8]) -> Poll<io::Result<usize>> {
+        let r = Pin::new(&mut self.inner).poll_write(cx, buf);
+        if let Poll::Ready(Ok(n)) = &r
+            && *n > 0
+        {
+            let me = self.me;
+            let st = &mut self.net.borrow_mut().ends[me].stats;
+            st.probe_accepted += *n as u64;
+            st.probe_last_flush = 0;
+        }
+        trace!("  [{}] asyncstream.poll_write({}) -> {:?}", self.me, buf.len(), match &r { Poll::Pending => "Pending".to_string(), Poll::Ready(x) => format!("{:?}", x.as_ref().map_err(|e| e.kind())) });
+        r
+    }
+
+    fn poll_flush(mut self: Pin<&mut Self>, cx: &mut Context<'_>) -> Poll<io::Result<()>> {
+        let r = Pin::new(&mut self.inner).poll_flush(cx);
+        let me = self.me;
+        self.net.borrow_mut().ends[me].stats.probe_last_flush = match &r {
+            Poll::Pending => 1,
+            Poll::Ready(Ok(())) => 2,
+            Poll::Ready(Err(_)) => 3,
+        };
+        trace!("  [{}] asyncstream.poll_flush -> {:?}", self.me, match &r { Poll::Pending => "Pending".to_string(), Poll::Ready(x) => format!("{:?}", x.as_ref().map_err(|e| e.kind())) });
+        r
+    }
+
+    fn poll_close(mut self: Pin<&mut Self>, cx: &mut Context<'_>) -> Poll<io::Result<()>> {
+        let r = Pin::new(&mut self.inner).poll_close(cx);
+        let me = self.me;
+        self.net.borrow_mut().ends[me].stats.probe_last_flush = match &r {
+            Poll::Pending => 1,
+            Poll::Ready(Ok(())) => 2,
+            Poll::Ready(Err(_)) => 3,
+        };
+        trace!("  [{}] asyncstream.poll_close -> {:?}", self.me, match &r { Poll::Pending => "Pending".to_string(), Poll::Ready(x) => format!("{:?}", x.as_ref().map_err(|e| e.kind())) });
+        r
     }
 }
 
@@ -754,8 +1154,8 @@ fn fail(log: &Shared, rule: &str, detail: String) {
     }
 }
 
-async fn send_list(
-    s: &mut TlsStream<End>,
+async fn send_list<S: AsyncRead + AsyncWrite + Unpin>(
+    s: &mut TlsStream<S>,
     case: &Case,
     dir: usize,
     log: &Shared,
@@ -805,8 +1205,8 @@ async fn send_list(
     Ok(())
 }
 
-async fn recv_list(
-    s: &mut TlsStream<End>,
+async fn recv_list<S: AsyncRead + AsyncWrite + Unpin>(
+    s: &mut TlsStream<S>,
     case: &Case,
     dir: usize,
     role: usize,
@@ -860,7 +1260,7 @@ async fn recv_list(
     Ok(())
 }
 
-async fn expect_eof(s: &mut TlsStream<End>, log: &Shared) -> Result<(), ()> {
+async fn expect_eof<S: AsyncRead + AsyncWrite + Unpin>(s: &mut TlsStream<S>, log: &Shared) -> Result<(), ()> {
     let mut b = [0u8; 16];
     match s.read(&mut b).await {
         Ok(0) => Ok(()),
@@ -875,7 +1275,7 @@ async fn expect_eof(s: &mut TlsStream<End>, log: &Shared) -> Result<(), ()> {
     }
 }
 
-async fn side(role: usize, end: End, case: Rc<Case>, log: Shared, net: Rc<RefCell<Net>>) {
+async fn side<S: AsyncRead + AsyncWrite + Unpin>(role: usize, end: S, case: Rc<Case>, log: Shared, net: Rc<RefCell<Net>>) {
     let m = match material() {
         Ok(m) => m,
         Err(e) => {
@@ -999,11 +1399,32 @@ fn run_case(case: &Case) -> Outcome {
         }))
     });
     let mut tasks: [Option<Pin<Box<dyn Future<Output = ()>>>>; 2] = std::array::from_fn(|r| {
-        let end = End {
-            net: net.clone(),
-            me: r,
-        };
-        Some(Box::pin(side(r, end, case.clone(), logs[r].clone(), net.clone())) as Pin<Box<dyn Future<Output = ()>>>)
+        if case.transport == "compat" {
+            use compio_io::compat::AsyncStream;
+            let ce = CompEnd {
+                net: net.clone(),
+                me: r,
+            };
+            // `AsyncStream` is `!Unpin`; a pinned box is `Unpin` and forwards
+            // the futures-io traits
+            let st: Pin<Box<AsyncStream<CompEnd>>> = Box::pin(match (case.compat_cap, case.compat_max) {
+                (0, _) => AsyncStream::new(ce),
+                (c, 0) => AsyncStream::with_capacity(c, ce),
+                (c, m) => AsyncStream::with_limits(c, m.max(c), ce),
+            });
+            let st = Probe {
+                inner: st,
+                net: net.clone(),
+                me: r,
+            };
+            Some(Box::pin(side(r, st, case.clone(), logs[r].clone(), net.clone())) as Pin<Box<dyn Future<Output = ()>>>)
+        } else {
+            let end = End {
+                net: net.clone(),
+                me: r,
+            };
+            Some(Box::pin(side(r, end, case.clone(), logs[r].clone(), net.clone())) as Pin<Box<dyn Future<Output = ()>>>)
+        }
     });
     let wakers: [Arc<TaskWaker>; 2] = std::array::from_fn(|_| {
         Arc::new(TaskWaker {
@@ -1037,7 +1458,19 @@ fn run_case(case: &Case) -> Outcome {
             // attribute: the side whose written bytes are stuck in its own
             // transport buffer; else the side that does not read what was
             // delivered to it; else the first side still pending
-            let (kind, side, cause) = if let Some(i) = (0..2).find(|i| staged[*i] > 0) {
+            // compat transport: bytes accepted by AsyncStream but not handed on
+            let held: [u64; 2] = std::array::from_fn(|i| {
+                n.ends[i].stats.probe_accepted.saturating_sub(n.ends[i].stats.comp_submitted)
+            });
+            let (kind, side, cause) = if let Some(i) = (0..2).find(|i| held[*i] > 0) {
+                let cause = match n.ends[i].stats.probe_last_flush {
+                    0 => "no-flush-after-write",
+                    1 => "flush-pending-never-retried",
+                    2 => "asyncstream-flush-returned-ok-with-bytes-buffered",
+                    _ => "flush-failed",
+                };
+                ("deadlock-unflushed", i, cause)
+            } else if let Some(i) = (0..2).find(|i| staged[*i] > 0) {
                 let st = &n.ends[i].stats;
                 let cause = if st.flush_pending_outstanding {
                     "flush-pending-never-retried"
@@ -1061,10 +1494,11 @@ fn run_case(case: &Case) -> Outcome {
                 cause: cause.to_string(),
                 side,
                 detail: format!(
-                    "no task is woken and no wake is outstanding at step {}; still pending: {pending_sides:?} (client in {}, server in {}); staged (unflushed) bytes c->s {} s->c {}; delivered-but-unread c->s {} s->c {}; reader wakers registered: c->s {} s->c {}; flush calls since last staged write: client {} server {}; last flush returned Pending and was never retried: client {} server {}",
+                    "no task is woken and no wake is outstanding at step {}; still pending: {pending_sides:?} (client in {}, server in {}); bytes held inside AsyncStream/SyncStream: client {} server {}; staged (unflushed) bytes c->s {} s->c {}; delivered-but-unread c->s {} s->c {}; reader wakers registered: c->s {} s->c {}; flush calls since last staged write: client {} server {}; last flush returned Pending and was never retried: client {} server {}",
                     n.step,
                     logs[0].borrow().phase.name(),
                     logs[1].borrow().phase.name(),
+                    held[0], held[1],
                     staged[0], staged[1], wire[0], wire[1],
                     n.pipes[0].reader.is_some(), n.pipes[1].reader.is_some(),
                     n.ends[0].stats.flush_calls_since_write, n.ends[1].stats.flush_calls_since_write,
@@ -1090,7 +1524,9 @@ fn run_case(case: &Case) -> Outcome {
         };
         let w = Waker::from(wakers[pick].clone());
         let mut cx = Context::from_waker(&w);
+        trace!("step {} poll {} (phase {})", net.borrow().step, ["client", "server"][pick], logs[pick].borrow().phase.name());
         let r = tasks[pick].as_mut().expect("runnable task").as_mut().poll(&mut cx);
+        trace!("   -> {}", if r.is_ready() { "ready" } else { "pending" });
         let after = {
             let mut n = net.borrow_mut();
             n.step += 1;
@@ -1162,7 +1598,17 @@ fn run_case(case: &Case) -> Outcome {
         // residue: nothing may be left staged or unread
         let staged = [n.pipes[0].staged.len(), n.pipes[1].staged.len()];
         let wire = [n.pipes[0].wire.len(), n.pipes[1].wire.len()];
-        if staged.iter().any(|x| *x > 0) {
+        let held: [u64; 2] = std::array::from_fn(|i| {
+            n.ends[i].stats.probe_accepted.saturating_sub(n.ends[i].stats.comp_submitted)
+        });
+        if held.iter().any(|x| *x > 0) {
+            failure = Some(Failure {
+                rule: "residue-asyncstream".to_string(),
+                cause: String::new(),
+                side: if held[0] > 0 { 0 } else { 1 },
+                detail: format!("both sides finished but bytes the TLS layer wrote are still inside AsyncStream/SyncStream: client {} server {}", held[0], held[1]),
+            });
+        } else if staged.iter().any(|x| *x > 0) {
             failure = Some(Failure {
                 rule: "residue-staged".to_string(),
                 cause: String::new(),
@@ -1210,7 +1656,11 @@ fn enumerated(thorough: bool) -> Vec<Case> {
             for hostile in ["client", "server", "both"] {
                 for rl in LIMITS {
                     for wl in LIMITS {
-                        for buffering in [false, true] {
+                        // variant 0/1: readiness-model duplex without/with
+                        // buffering; 2: completion-model duplex behind the real
+                        // compio_io::compat::AsyncStream
+                        for variant in 0..3usize {
+                            let buffering = variant == 1;
                             // k = 0: never Pending; else Pending-then-k-ready on
                             // read+write only (kf < 4) or on all four call kinds
                             for kf in 0..9usize {
@@ -1233,10 +1683,13 @@ fn enumerated(thorough: bool) -> Vec<Case> {
                                         _ => [vec![], vec![17, 32768, 2]],
                                     }
                                 } else {
+                                    // small in the quick tier (1-byte limits make every
+                                    // byte a poll); records > 16 KiB come from the
+                                    // seeded family and the thorough tier
                                     match n % 3 {
-                                        0 => [vec![0, 1, 700], vec![3, 0, 16500]],
-                                        1 => [vec![16385, 2], vec![1, 1, 0, 300]],
-                                        _ => [vec![], vec![17, 2000]],
+                                        0 => [vec![0, 1, 700], vec![3, 0, 2500]],
+                                        1 => [vec![2100, 2], vec![1, 1, 0, 300]],
+                                        _ => [vec![], vec![17, 1000]],
                                     }
                                 };
                                 out.push(Case {
@@ -1257,6 +1710,9 @@ fn enumerated(thorough: bool) -> Vec<Case> {
                                     sched: 0,
                                     sched_seed: 0,
                                     pattern_seed: n,
+                                    transport: if variant == 2 { "compat".into() } else { "direct".into() },
+                                    compat_cap: if variant == 2 { [0usize, 1, 64, 4096][(n % 4) as usize] } else { 0 },
+                                    compat_max: if variant == 2 { [0usize, 0, 100, 0, 20000][(n % 5) as usize] } else { 0 },
                                 });
                             }
                         }
@@ -1316,7 +1772,7 @@ fn seeded_case(rng: &mut Rng, thorough: bool) -> Case {
     };
     // bound the cost: tiny limits with big payloads are covered by the
     // enumerated family; here the total stays moderate
-    let max_total = if thorough { 160 * 1024 } else { 48 * 1024 };
+    let max_total = if thorough { 160 * 1024 } else { 96 * 1024 };
     let mut lists: [Vec<usize>; 2] = Default::default();
     for l in lists.iter_mut() {
         let n = rng.below(6);
@@ -1353,6 +1809,9 @@ fn seeded_case(rng: &mut Rng, thorough: bool) -> Case {
         sched: rng.below(4) as u8,
         sched_seed: rng.next_u64(),
         pattern_seed: rng.next_u64(),
+        transport: if rng.chance(2, 5) { "compat".into() } else { "direct".into() },
+        compat_cap: *rng.pick(&[0usize, 0, 1, 16, 300, 8192]),
+        compat_max: *rng.pick(&[0usize, 0, 0, 64, 1000, 20000]),
     }
 }
 
@@ -1407,7 +1866,13 @@ fn eval_sig(case: &Case) -> String {
         lim_str(&s.rl),
         lim_str(&s.wl),
         pend_str(s),
-        if s.buffering { "buf" } else { "direct" }
+        if case.transport == "compat" {
+            format!("asyncstream[{},{}]", case.compat_cap, case.compat_max)
+        } else if s.buffering {
+            "buf".to_string()
+        } else {
+            "direct".to_string()
+        }
     )
 }
 
@@ -1417,7 +1882,20 @@ fn eval_sig(case: &Case) -> String {
 fn violation_sig(case: &Case, f: &Failure, phases: [Phase; 2]) -> String {
     let who = format!("{}-{}", case.backend[f.side].name(), ["client", "server"][f.side]);
     let cause = if f.cause.is_empty() { case.script_class() } else { f.cause.clone() };
-    format!("C15/tls/{}/{cause}/tls{}/{who}/{}", f.rule, case.version, phases[f.side].name())
+    let via = if case.transport == "compat" { "/via-asyncstream" } else { "" };
+    if f.cause == "asyncstream-flush-returned-ok-with-bytes-buffered" {
+        // compio-io's AsyncStream itself: TLS back-end, role and phase are incidental
+        return format!("C15/tls/{}/{}{via}", f.rule, f.cause);
+    }
+    // stage instead of the exact phase, no TLS version: one root cause = few
+    // signatures (both stay visible in the replay program and the eval
+    // signatures)
+    let stage = match phases[f.side] {
+        Phase::Handshake => "handshake",
+        Phase::Send | Phase::Recv => "data",
+        Phase::Close | Phase::WaitEof | Phase::Done => "close",
+    };
+    format!("C15/tls/{}/{cause}/{who}/{stage}{via}", f.rule)
 }
 
 fn execute(case: &Case, rep: &mut Report) {
@@ -1481,6 +1959,12 @@ fn execute(case: &Case, rep: &mut Report) {
                 return;
             }
             match p.origin() {
+                panics::Origin::Repo(loc) if loc.starts_with("compio-io/src/compat/") => rep.violation(
+                    // AsyncStream/SyncStream itself: back-ends and roles are incidental
+                    &format!("C15/tls/{}/via-asyncstream", p.sig()),
+                    &format!("panic in compio at {loc}: {}", p.message),
+                    case.to_json(),
+                ),
                 panics::Origin::Repo(loc) => rep.violation(
                     &format!("C15/tls/{}/tls{}/{}/hostile={}/{}", p.sig(), case.version, case.backends(), case.hostile, case.script_class()),
                     &format!("panic in compio at {loc}: {}", p.message),
@@ -1528,11 +2012,17 @@ pub fn main(args: &Args) {
             execute(c, &mut rep);
             ran += 1;
         }
-        rep.count("enumerated_cases_total", cases.len() as i64 / nshards.max(1) as i64);
+        if shard == 0 {
+            rep.count("enumerated_cases_total", cases.len() as i64);
+        }
         rep.count("enumerated_cases_run", ran);
-        rep.set_exhaustive(complete && stride == 1);
+        // a strided leg (sanitizer) samples the family; only the full walk
+        // makes a statement about exhaustiveness
+        if stride == 1 {
+            rep.set_exhaustive(complete);
+        }
         rep.note(format!(
-            "enumerated family: limits {{1,2,3,5,inf}}^2 x buffering x Pending-then-k-ready (k=0, k=1..4 on read+write, k=1..4 on read+write+flush+close) x hostile role {{client,server,both}} x 4 back-end pairs x TLS {{1.3,1.2}} = {} cases over all shards, stride {stride}, complete={complete}",
+            "enumerated family: limits {{1,2,3,5,inf}}^2 x transport {{direct, buffering, AsyncStream}} x Pending-then-k-ready (k=0, k=1..4 on read+write, k=1..4 on read+write+flush+close) x hostile role {{client,server,both}} x 4 back-end pairs x TLS {{1.3,1.2}} = {} cases over all shards, stride {stride}, complete={complete}",
             cases.len()
         ));
     }
